@@ -175,7 +175,7 @@ def plan(tier, seed):
     if tier == "thorough":
         for k in range(128):
             jobs.append({"sub": "p2c_exh", "p": 5, "shard": k, "nshards": 128, "seed": seed, "cost": 50})
-    for k, (pb, fam) in enumerate([(270, "tree"), (300, "tree_plus"), (290, "band"), (257, "tree_plus")] +
+    for k, (pb, fam) in enumerate([(270, "tree"), (300, "tree_plus"), (290, "band"), (257, "tree_plus"), (132, "hubs"), (203, "hubs")] +
                                   ([(400, "tree_plus"), (520, "band")] if tier == "thorough" else [])):
         jobs.append({"sub": "cpdag_big", "seed": seed, "p": pb, "family": fam, "index": k, "cost": 12})
     n1 = scaled(640 if tier == "quick" else 20000)
@@ -201,7 +201,14 @@ def run(job):
         a = next(x for x in range(11 + job["seed"] % 9, 11 + job["seed"] % 9 + 4 * pb) if math.gcd(x, pb) == 1)
         lab = [(a * k + 5) % pb for k in range(pb)]
         A = [[0] * pb for _ in range(pb)]
-        for k in range(1, pb):
+        if fam == "hubs":
+            # two (three) non-adjacent hubs with pb-2 (pb-3) common children, one extra edge below
+            nh = 2 if pb < 200 else 3
+            for h in range(nh):
+                for c in range(nh, pb):
+                    A[lab[h]][lab[c]] = 1
+            A[lab[nh]][lab[nh + 1]] = 1
+        for k in range(1, pb if fam != "hubs" else 0):
             if fam in ("tree", "tree_plus"):
                 A[lab[max(0, k - 1 - (k % 3))]][lab[k]] = 1
                 if fam == "tree_plus" and k % 17 == 0 and k >= 9:
